@@ -1,9 +1,9 @@
 CONSTANTS
   Tier = "quick"
   Export = TRUE
-  Fams = {"short", "cor"}
+  Fams = {"short6", "short7", "cor6", "cor7"}
   SliceLo = 0
-  SliceHi = 255
+  SliceHi = 1023
 INIT Init
 NEXT Next
 INVARIANT Law
